@@ -71,12 +71,20 @@ type h2Req struct {
 	To string `json:"listener,omitempty"`
 	// CloseAfter: the client closes its connection after this exchange (the next request to that listener dials anew)
 	CloseAfter bool `json:"client_closes_connection_after,omitempty"`
+	// HTTP/2 clients only (see zz_verif_h2c_test.go). Chunked means "no content-length field", Chunks are the sizes of
+	// the DATA frames, Abort is the number of body bytes after which the client resets the stream.
+	SplitCookie bool `json:"cookie_crumbs_as_separate_fields,omitempty"`
+	EndEmpty    bool `json:"end_stream_on_empty_data_frame,omitempty"`
+	SplitHead   int  `json:"continuation_after_block_bytes,omitempty"`
 }
 
 type h2Client struct {
 	Addr string  `json:"addr"` // ip:port of the first connection; later connections use port+1...
 	TLS  bool    `json:"tls,omitempty"`
 	Reqs []h2Req `json:"requests"`
+	// H2: the client speaks HTTP/2 (over TLS, ALPN h2) with up to Streams concurrently open streams on one connection
+	H2      bool `json:"http2,omitempty"`
+	Streams int  `json:"max_open_streams,omitempty"`
 }
 
 // h2Seen is a request as received by an upstream.
@@ -109,6 +117,7 @@ type h2Result struct {
 	TE       []string
 	CL       int64
 	Interim  []int
+	Trailer  http.Header
 }
 
 type h2Env struct {
@@ -134,6 +143,7 @@ type h2Env struct {
 	wrap     func(http.Handler) http.Handler
 	onSeen   func(*h2Seen)
 	stop     chan struct{}
+	h2conn   map[string]*h2cConn // request id -> HTTP/2 client connection
 }
 
 func h2NewEnv(r *simcore.Run, cfg *config.Config, table string) *h2Env {
@@ -264,6 +274,9 @@ func (e *h2Env) serveUpstream(key string, rawConn, c net.Conn) {
 			onSeen(s)
 		}
 		e.r.Tracef("upstream %s got %s %s id=%s body=%d", key, req.Method, req.RequestURI, id, len(body))
+		if sc != nil && !e.awaitTurn(id) {
+			return
+		}
 		if sc == nil {
 			io.WriteString(c, "HTTP/1.1 599 unscripted\r\nContent-Length: 0\r\n\r\n")
 			continue
@@ -429,6 +442,10 @@ func h2RenderRequest(rq *h2Req) []byte {
 
 // client runs one scripted client; every request of it is registered first.
 func (e *h2Env) client(cl *h2Client) {
+	if cl.H2 {
+		e.clientH2(cl)
+		return
+	}
 	e.mu.Lock()
 	e.clients++
 	for i := range cl.Reqs {
